@@ -537,9 +537,11 @@ def run(ctx):
 
     def read_back(path):
         """what a fresh read-mode view and the raw table show; ("error", text) when the view cannot be built"""
-        con = sqlite3.connect(path)
+        con = sqlite3.connect(path, timeout=1.0)
         try:
             raw = con.execute("SELECT id, individual FROM individuals").fetchall()
+        except sqlite3.Error as e:
+            return {"error": "raw table unreadable: %s: %s" % (type(e).__name__, e), "raw": []}
         finally:
             con.close()
         try:
@@ -670,9 +672,8 @@ def run(ctx):
                         # a call that dies inside its transaction keeps the file locked while the frame is alive, and
                         # sync_individual retries for ever on a locked file: stop this history here
                         fail("store call %d (%s) raised %s: %s" % (j, op["op"], type(e).__name__, str(e)[:300]), case, "sync raises", op_index=j)
-                        del e
-                        gc.collect()
                         break
+                gc.collect()        # frees the connection of a call that died inside its transaction (the traceback held it)
                 if st["destroy"]:
                     store.destroy()
                 obs = read_back(path)
@@ -722,7 +723,7 @@ def run(ctx):
                 history_case(case, k)
                 k += 1
     n_corpus = k
-    for _ in range(ctx.pick(240, 3000)):
+    for _ in range(ctx.pick(240, 2000)):
         history_case(gen_history(rng), k)
         k += 1
     for _ in range(ctx.pick(12, 120)):
